@@ -7,7 +7,7 @@ generate_facts = extract_facts.generate
 ID = "C03"
 LEAN_MODULES = ["Econf.Props.C03", "Econf.Props.Tie", "Econf.Props.LeafKf"]
 # the look-ups of the merge over the entry arrays: translated from lib/mergefiles.c on every run (gen/c2lean.py)
-LEAF_FNS = ["has_group", "first_entry", "first_definition"]
+LEAF_FNS = ["has_group", "first_entry", "first_definition", "setGroupList", "cpy_file_entry", "merge3"]
 THEOREMS = ["Econf.C03_lookup", "Econf.C03_nothing_else", "Econf.C03_no_duplicates", "Econf.C03_base_order",
             "Econf.C03_new_keys_after_base", "Econf.C03_new_groups_last", "Econf.C03_groupless_first", "Econf.C03_bound",
             "Econf.C03_object", "Econf.C03_merge_spec", "Econf.Struct.api_frames",
